@@ -324,6 +324,23 @@ func genC03(seed uint64, tier string) *Scenario {
 			a.Storage[genSlot(r)] = stringWord(r)
 		}
 		switch {
+		case profile == "raw" && r.P(1, 4):
+			// code whose jump-destination analysis has to cope with its very end: a taken jump,
+			// filler, and a PUSHn as the last byte(s) with some or all of its data missing
+			total := 6 + r.Intn(60)
+			if r.Bool() {
+				total = 8 * (1 + r.Intn(8))
+			}
+			raw := []byte{0x60, 0x03, 0x56, 0x5b} // PUSH1 3; JUMP; JUMPDEST
+			tail := []byte{byte(0x60 + r.Intn(32))}
+			if r.Bool() {
+				tail[0] = 0x7f
+			}
+			tail = append(tail, r.Bytes(r.Intn(3))...)
+			for len(raw)+len(tail) < total {
+				raw = append(raw, pick(r, []byte{0x00, 0x5b, 0x01, 0x50}))
+			}
+			a.RawCode = hx(append(raw, tail...))
 		case profile == "raw" && r.P(2, 3):
 			raw := r.Bytes(1 + r.Intn(120))
 			for k := range raw { // bias towards journal opcodes and pushes
